@@ -48,7 +48,7 @@ REAL = ['asyncssh forward.py, listener.py, socks.py, connection/channel '
         'forwarding paths of both endpoints']
 STUB = ['event loop + clock', 'TCP/UNIX sockets and listeners', 'DNS',
         'executor', 'origin and destination applications']
-PROBES = ['duplicate_listen_request', 'dynamic_listen_ports', 'mode_remote_unix', 'mode_local', 'mode_socks', 'mode_remote', 'mode_local_unix',
+PROBES = ['listener_closed_twice', 'duplicate_listen_request', 'dynamic_listen_ports', 'mode_remote_unix', 'mode_local', 'mode_socks', 'mode_remote', 'mode_local_unix',
           'early_data', 'half_close', 'origin_abort', 'dest_close_first',
           'slow_consumer', 'refused_by_policy', 'ssh_cut',
           'origin_gone_during_open', 'multi_conn', 'listen_refused']
@@ -122,6 +122,8 @@ def gen_plan(rng):
         'cut': cut,
         'dyn_ports': mode == 'remote' and rng.chance(40),
         'dup_listen': mode == 'remote_unix' and rng.chance(40),
+        'lclose2': rng.choice([0, 0, 0, 1, 5, 30])
+        if mode in ('remote', 'remote_unix') else 0,
     }
 
 
@@ -578,6 +580,21 @@ def run_plan(plan, sched_seed=None, sched_replay=None):
         for ci, c in enumerate(plan['conns']):
             sim.track('origin%d' % ci, start_origin(ci, c))
 
+        if plan.get('lclose2') and listeners.get(0) is not None:
+            async def close_twice():
+                # the listener is closed while connections are being
+                # relayed, and closed again (as leaving an `async with`
+                # block after an explicit close() does): existing
+                # connections stay up, and so does the SSH connection
+                for _ in range(plan['lclose2']):
+                    await sim.pause('listener-close')
+
+                sim.probes['listener_closed_twice'] += 1
+                listeners[0].close()
+                listeners[0].close()
+
+            sim.track('close-twice', close_twice())
+
         await world.gate('io-done')
 
         # everything still open is closed from the origin side now
@@ -607,6 +624,14 @@ def run_plan(plan, sched_seed=None, sched_replay=None):
 
     if len(plan['conns']) > 1:
         sim.probes['multi_conn'] += 1
+
+    if plan.get('lclose2') and conn is not None and not cut_fired and \
+            not sim.loop.capped and conn.is_closed():
+        world.violation('connection-dropped', 'closing a remote listener '
+                        'twice ended the SSH connection (%r)' %
+                        ([repr(x) for x in getattr(res.get('owner'), 'lost',
+                                                   [])],),
+                        sig='listener-closed-twice')
 
     # -- listen requests -------------------------------------------------------------
     if remote and conn is not None and not cut_fired:
@@ -654,6 +679,10 @@ def run_plan(plan, sched_seed=None, sched_replay=None):
                  not plan['listen_refused'])
 
             if getattr(o, 'connect_error', None) is not None:
+                if plan.get('lclose2') and o.didx == 0:
+                    # (the scenario closed this listener itself)
+                    continue
+
                 if allowed and not c['early_gone'] and \
                         res['listener_error'] is None:
                     world.violation('forward-refused', 'origin %d could not '
@@ -696,6 +725,11 @@ def run_plan(plan, sched_seed=None, sched_replay=None):
                 c['origin'][0][0] in ('close', 'abort')
 
             if t is None:
+                if plan.get('lclose2') and o.didx == 0:
+                    # a connection still being set up when its listener is
+                    # closed may be turned away
+                    continue
+
                 if o.sent and not o.closed_locally:
                     world.violation(
                         'not-forwarded', 'origin %d wrote %d bytes but no '
